@@ -5,7 +5,9 @@
 #include "modes.h"
 #include <unistd.h>
 
+#ifndef GRSIM_PLAIN
 extern "C" void __sanitizer_set_death_callback(void (*)(void));
+#endif
 
 using namespace sim;
 
@@ -60,7 +62,11 @@ int main(int argc, char **argv) {
     { Rng r(12345); g_default_report_cps = {0x20, 0x41, 0x61, 0xE9, 0x300, 0x627, 0x628, 0x1000, 0x1039, 0x915, 0xFFFF, 0x10000, 0x1D510, 0x10FFFF, 0xE000, 0x200B}; }
     alloc_install();
     g_fatal_hook = on_fatal;
+#ifndef GRSIM_PLAIN
     __sanitizer_set_death_callback(on_death);
+#else
+    (void)on_death;
+#endif
 
     if (!replay.empty()) {
         Bytes b; if (!read_file(replay, b)) { fprintf(stderr, "cannot read %s\n", replay.c_str()); return 3; }
